@@ -109,6 +109,10 @@ Fixpoint acc_mem (t : list (string * fam * repr * sproc)) (a : string) (f : fam)
 Fixpoint single_alg (t : list (fam * string)) (f : fam) : option string :=
   match t with [] => None | (f', a) :: t' => if fam_eqb f f' then Some a else single_alg t' f end.
 
+Definition starts_brace (tok : list N) : bool := match tok with c :: _ => c =? 123 | [] => false end.
+Definition jv_absent (j : jv) : bool := match j with JAbsent => true | _ => false end.
+Definition is_nil (l : list N) : bool := match l with [] => true | _ => false end.
+
 Section Verify.
   (* third-party JSON decoding of the header bytes into jose.Headers, projected on the members the code reads *)
   Variable parse_hdr : list N -> option hview.
@@ -159,7 +163,7 @@ Section Verify.
   (* jwt.UnsecuredJWTVerifier *)
   Definition verify_unsecured (h : hview) (sg : list N) : vres :=
     match h_alg h with
-    | JS alg => if String.eqb alg "none" && match sg with [] => true | _ => false end then VOk else VFail
+    | JS alg => if String.eqb alg "none" && is_nil sg then VOk else VFail
     | _ => VFail
     end.
 
@@ -193,9 +197,8 @@ Section Verify.
     end.
 
   Definition parse_jws (v : variant) (c : vcfg) (det : option (list N)) (tok : list N) : out :=
-    match tok with
-    | 123 :: _ => Reject StSplit                      (* JSON serialization is not supported *)
-    | _ =>
+    if starts_brace tok then Reject StSplit             (* JSON serialization is not supported *)
+    else
       match split_dot tok with
       | [hseg; pseg; sseg] =>
           match b64dec hseg with
@@ -204,9 +207,8 @@ Section Verify.
             match parse_hdr hb with
             | None => Reject StHdr
             | Some h =>
-              match h_alg h with
-              | JAbsent => Reject StHdr
-              | _ =>
+              if jv_absent (h_alg h) then Reject StHdr
+              else
                 match payload_of v det pseg with
                 | None => Reject StPay
                 | Some payload =>
@@ -224,12 +226,10 @@ Section Verify.
                     end
                   end
                 end
-              end
             end
           end
       | _ => Reject StSplit
-      end
-    end.
+      end.
 
   (* jwt.checkHeaders after a successful ParseJWS *)
   Definition typ_ok (h : hview) : bool :=
